@@ -38,6 +38,13 @@ func (e *Event) String() string {
 	if e.B != "" {
 		s += " | " + e.B
 	}
+	if e.Data != nil && (e.Kind == "api.ret" || e.Kind == "lb.r.ret") {
+		d := fmt.Sprintf("%v", e.Data)
+		if len(d) > 160 {
+			d = d[:160] + "..."
+		}
+		s += " => " + d
+	}
 	return s
 }
 
